@@ -11,7 +11,7 @@ VERIF = os.path.dirname(os.path.dirname(os.path.abspath(__file__)))
 BOUNDED = {
  'C01': ('Display / from_str round trip (Display is write!-based, the grammar is nom: outside the verifier)',
          'the corpus of ~370 D-symbols (8 parsed, the rest pseudo-random involution tables of size <= 8, dimension <= 3, fixed seed): print, parse, compare; '
-         'plus ~2300 malformed strings (hand-written corner cases incl. decimal numbers beyond 64 bits at every position, and single-character edits of valid text): no panic, Ok => involutions and degrees multiples of r'),
+         'plus ~2300 malformed strings (hand-written corner cases incl. decimal numbers beyond 64 bits at every position, rejected texts with multi-byte characters at every distance from the start, headers with counters 0, and single-character edits of valid text): no panic, Ok => involutions and degrees multiples of r'),
  'C02': ('Traversal, orbit, orbit_reps, is_connected, is_loopless, is_weakly_oriented, is_oriented (stateful iterator over BTreeMap/VecDeque/HashSet: outside the verifier)',
          'the same corpus; ALL index lists in ascending and descending order plus two mixed ones; all seeds: orbit = reachable set, one representative per component, '
          'every i-edge of a traversed component exactly once, predicates = reachability / bipartiteness computed independently; r/v/m of both representations on every '
@@ -40,7 +40,7 @@ BOUNDED = {
          'index computed independently from the permutation representation: row count = index, generators act as mutually inverse permutations, transitive, every relator closes at '
          'every row, subgroup generators fix row 0, coset representatives trace to their rows'),
  'C13': ('the stabiliser presentation (Schreier generators, rewritten relators: HashMap / flat_map code outside the verifier) and the row count of the core table; the intersection table and the core table (word-fixing clause) are ALSO decided deductively',
-         'nine presentations of known order (S3, V4, A4, S4, D4, Z6, and Z3, S3, Z4 with a redundant generator) with all subgroups generated by pairs of words of length <= 2 (plus the trivial subgroup): core_table: row count = order of the permutation '
+         'thirteen presentations of known order (S3, V4, A4, S4, D4, Z6; Z3, S3, Z4 with a redundant generator; S3, D4, A4 with a conjugated, i.e. freely but not cyclically reduced, relator; SL(2,3) = <a,b | a^3 b^-3, a^3 (ab)^-2>) with all subgroups generated by pairs of words of length <= 2 (plus the trivial subgroup): core_table: row count = order of the permutation '
          'group generated by the action (closure), and for all words up to length 4-5 "fixes every row of the input" <=> "fixes row 0 of the core"; stabilizer(b, ..) for EVERY base row b of tables with '
          'at most 8 rows (rows 0, 1 and the last one of larger tables): every generator fixes the base row, '
          'the generators generate a subgroup of the index of the table, the returned presentation enumerates to the order |G| / index; intersection_table on all pairs of the first eight tables: row '
